@@ -7,7 +7,7 @@ import os
 import signal
 
 from . import vkernel
-from .proctable import ProcTable
+from .proctable import CLK_TCK, ProcTable
 
 B0 = 1_700_000_000
 SIG_KINDS = {"suspend": signal.SIGSTOP, "resume": signal.SIGCONT, "terminate": signal.SIGTERM,
@@ -20,6 +20,18 @@ class Handle:
         self.pid = pid
         self.inc = inc          # incarnation the object was created for
         self.created_at = created_at
+
+
+class _WallTime:
+    def __init__(self, world, real):
+        self._w = world
+        self._r = real
+
+    def time(self):
+        return self._w._wall()
+
+    def __getattr__(self, n):
+        return getattr(self._r, n)
 
 
 class World:
@@ -51,10 +63,23 @@ class World:
         self.records = []       # one dict per op: op, result, events (sink events during the op)
         self.dead_incs = set()
 
+    def _wall(self):
+        """The calendar clock of the simulated machine: what its kernel publishes as boot time + its uptime (one tick per
+        op), so a clock step (`step` op) moves it together with btime and no process ever started "in the future"."""
+        return self.t.btime + (self.tick + 1) / CLK_TCK
+
     def __enter__(self):
         self.vk.__enter__()
         ps = self.ps
         ps.PROCFS_PATH = "/vproc"
+        # whichever psutil module looks at the calendar clock sees the simulated machine's
+        import sys
+        import time as _time
+        self._time_patched = []
+        for name, mod in list(sys.modules.items()):
+            if mod is not None and (name == ps.__name__ or name.startswith(ps.__name__ + ".")) and getattr(mod, "time", None) is _time:
+                mod.time = _WallTime(self, _time)
+                self._time_patched.append(mod)
         if self.prime:
             # fresh-program state through public API only
             ps.boot_time()
@@ -67,6 +92,8 @@ class World:
         return self
 
     def __exit__(self, *a):
+        for mod in getattr(self, "_time_patched", []):
+            mod.time = mod.time._r
         for cm in list(self.open_cms.values()):
             try:
                 cm.__exit__(None, None, None)
